@@ -49,6 +49,7 @@ ORIG_MAKE_MASKING_KEY = None
 CASE_PRELUDE = None     # see run_scenario
 CASE_COMPANION = None   # see Companion
 CASE_NOISE = None       # calls with unsendable arguments that the application makes (and catches) during the case
+CASE_WSOPTS = None      # WebSocket() constructor arguments of the case being run that its scenarios do not set themselves
 CASE_COPTS = None       # connect() options of the case being run that its scenarios do not set themselves
 ACTIVE_COMPANION = None  # the interleaved companion of the execution in progress
 ON_BLOCKED = None        # set by the runner: shortens the real-time watchdog for one execution
@@ -1227,7 +1228,8 @@ LONG_EXCEPTION_TEXT = "handler failed: \u00e9\u20ac {} %s {0!r} " * 12
 
 def make_ws(scenario):
     from lomond.websocket import WebSocket
-    kw = dict(scenario.get("ws_opts", {}))
+    kw = dict(CASE_WSOPTS or {})
+    kw.update(scenario.get("ws_opts", {}))
     headers = kw.pop("headers", [])
     url = scenario.get("url", "ws://example.test/")
     if "proxies" not in kw:
